@@ -43,9 +43,9 @@ class Samplers(Part):
     def cases(self, ctx):
         rng = ctx.rng
         cases = []
-        ns = [1, 2, 3, 5, 8, 17, 40] if ctx.quick else [1, 2, 3, 4, 5, 7, 8, 13, 17, 40, 100, 200]
+        ns = [1, 2, 3, 5, 8, 17, 40] if ctx.quick else [1, 2, 3, 4, 5, 7, 8, 13, 17, 40, 100, 200, 500, 1000]
         for n in ns:
-            for d in (1, 2, 3, 5, 8):
+            for d in ((1, 2, 3, 5, 8) if ctx.quick else (1, 2, 3, 5, 8, 12, 20)):
                 for rep in range(2 if ctx.quick else 6):
                     cases.append({"kind": "lhs", "n": n, "d": d, "cseed": rng.randrange(1 << 30)})
         for n in ns:
